@@ -2,7 +2,10 @@
 """Summarises verdicts stored in build/cache for the CURRENT tree (keys recomputed)."""
 import os, sys, json, re
 sys.path.insert(0, os.path.dirname(os.path.dirname(os.path.abspath(__file__))))
-from vlib import registry, kani
+from vlib import registry, kani, overlay
+_roots = []
+for v in registry.VARIANTS:
+    r, c, i = overlay.build(**registry.VARIANTS[v]); _roots.append(r); kani.register_overlay(v, c)
 pat = sys.argv[1] if len(sys.argv) > 1 else "."
 rows = []
 for h, hs in registry.H.items():
@@ -19,3 +22,5 @@ for r in rows: print("%-34s %-12s %-7s %s" % r)
 st = {}
 for r in rows: st[r[1]] = st.get(r[1], 0) + 1
 print(st)
+
+for r in _roots: overlay.cleanup(r)
